@@ -10,7 +10,7 @@ import struct
 import hashlib
 from fractions import Fraction as F
 
-from harness.c01_pool import POOL
+from harness.c01_pool import POOL, unit_inputs
 from tools import scgf, opcodes_ref
 import json as _json, os as _os
 # reference class table (droppable, width-first) — the specification, NOT read from the code
@@ -73,6 +73,12 @@ def check_kind(obj):
         return f'naudio:{m.group(1)}'
     if 'return self._check_sr_as_first_input()' in src:
         return 'srfirst'
+    body = ' '.join(src.replace('\\\n', ' ').split())
+    if ("if gpp.ugen_param(self.inputs[0])._as_ugen_rate() == 'demand':" in body
+            and "reset_rate = gpp.ugen_param(self.inputs[1])._as_ugen_rate()" in body
+            and "if reset_rate != 'demand' and reset_rate != 'scalar' and reset_rate != self.rate:" in body
+            and body.rstrip().endswith("rate\") return self._check_valid_inputs()")):
+        return 'duty'
     return 'unknown'
 
 
@@ -494,7 +500,7 @@ def semantic_oracle(prog, rec, sd, d):
                 e = events[ev - base]
                 # inputs of a surviving constructor unit = source expressions (up to ring identities)
                 if e['t'] == 'atom':
-                    want = [F(a[1], a[2]) if a[0] == 'n' else senv[a[1]][a[2]] for a in e['ins'] if a[0] != 'bad']
+                    want = [F(a[1], a[2]) if a[0] == 'n' else senv[a[1]][a[2]] for a in unit_inputs(e['cls'], e['ins']) if a[0] != 'bad']
                     if any(a[0] == 'bad' for a in e['ins']):
                         raise Skip('bad-arg')
                 elif e['t'] == 'out':
